@@ -976,8 +976,29 @@ def replay(ctx, path):
             twin, _ = run_history(spec, calls, r["case_seed"])
             main, rec = run_history(spec, calls, r["case_seed"], bad, r.get("position"))
         print("rejected call:", rec)
+        differs = False
         for i, (a, b) in enumerate(zip(main, twin)):
-            print(i, "with-bad-call", a[:2], "twin", b[:2], "" if a[:2] == b[:2] else "   <-- differs")
+            d = a[:2] != b[:2] and (r.get("position") is None or i >= r["position"])
+            differs = differs or d
+            print(i, "with-bad-call", a[:2], "twin", b[:2], "   <-- differs" if d else "")
+        cls = (r.get("signature") or {}).get("class")
+        if rec is not None:
+            ec, before, after = rec[0], rec[1], rec[2]
+            pending = before[2] != "N"
+            moved = not ((after[0] == before[0] or (pending and spec.get("early_count") and after[0] == before[0] + 1))
+                         and (after[1:] == before[1:] or (pending and after[2] == "N")))
+            if cls == "malformed-accepted":
+                again = ec == "none"
+            elif cls == "wrong-exception":
+                again = ec not in ("none", "ValueError")
+            elif ec == "none":
+                again = False          # the call was accepted: nothing is claimed about it (probe calls), or the finding is gone
+            else:
+                again = moved or differs
+            print("replay: the failing input %s" % ("still fails" if again else "no longer fails"))
+            return 1 if again else 0
+        print("replay: traces %s" % ("differ" if differs else "agree"))
+        return 1 if differs else 0
     elif "base" in r:
         det = stubs()[r["base"]]()
         for d in r.get("history", []) + [r["call"]]:
